@@ -123,6 +123,7 @@ class SchemaSpec:
         self.behaviours = {}  # (type name, field name) -> behaviour
         self.resolve_type = {}  # abstract name -> "attr" | "fn-type" | "fn-name"
         self.objrepr = "obj"  # "obj" | "dict"
+        self.root_default = False
         # (type, field, argument) -> (python default, literal): an object type
         # may declare another default than its siblings / its interface
         self.arg_overrides = {}
@@ -213,7 +214,7 @@ class SchemaSpec:
 
 
 def gen_schema(st, want_mutation=False, small=False,
-               want_subscription=False):
+               want_subscription=False, allow_root_default=False):
     """Draw a schema spec.  ``st`` is a Stream."""
     spec = SchemaSpec()
     n_obj = 2 + st.below(2 if small else 4, "n_obj")
@@ -348,8 +349,13 @@ def gen_schema(st, want_mutation=False, small=False,
                 ]
             spec.fields[name] = FieldDef(name, draw_type(base), draw_args())
             mfields.append(name)
-        spec.objects["Mutation"] = {"fields": mfields, "interfaces": []}
-        spec.mutation = "Mutation"
+        if st.chance(1, 4, "shared_mutation_root"):
+            # legal: one object type serving as query AND mutation root
+            spec.objects["Query"]["fields"].extend(mfields)
+            spec.mutation = "Query"
+        else:
+            spec.objects["Mutation"] = {"fields": mfields, "interfaces": []}
+            spec.mutation = "Mutation"
 
     if want_subscription:
         sfields = []
@@ -382,6 +388,10 @@ def gen_schema(st, want_mutation=False, small=False,
 
     # -- behaviours, type resolution style -----------------------------------
     spec.objrepr = ("obj", "dict")[st.below(2, "objrepr")]
+    # root fields served by the library's default resolver from attributes /
+    # methods of the root value handed to the entry point
+    spec.root_default = bool(allow_root_default and spec.objrepr == "obj"
+                             and st.chance(1, 3, "root_default"))
     for tname, tdef in spec.objects.items():
         for f in tdef["fields"]:
             b = BEHAVIOURS[st.weighted(BEHAVIOUR_WEIGHTS, "beh")]
@@ -390,7 +400,8 @@ def gen_schema(st, want_mutation=False, small=False,
             if b == "default" and spec.objrepr == "dict":
                 b = "sync"
             if b == "default" and tname in ("Query", "Mutation",
-                                            "Subscription"):
+                                            "Subscription") and not (
+                    spec.root_default and tname != "Subscription"):
                 b = "sync"  # root value is None
             if b == "tdefault" and tname == "Subscription":
                 b = "sync"
@@ -831,7 +842,7 @@ class OpGen:
             choice = st.weighted((8, 2, 2, 1), "sel_kind")
             # 0 field, 1 inline fragment, 2 spread, 3 __typename
             if choice == 3 or (choice == 0 and not fields):
-                if tname in ("Mutation",):
+                if self.op.kind == "mutation" and tname == self.op.root_type:
                     continue
                 alias = "tn" if st.chance(1, 4, "tn_alias") else None
                 f = FieldSel("__typename", alias=alias, dirs=self._dirs())
